@@ -13,7 +13,7 @@ META = {
     "outside": profiles.OUTSIDE,
 }
 
-REQUIRED_COVERS = {"any": profiles.REQUIRED["C14"] + ["second-run"]}
+REQUIRED_COVERS = {"any": profiles.REQUIRED["C14"] + ["second-run", "backward-logs"]}
 
 CROSSCHECK = {"thorough": 8}
 
@@ -44,6 +44,24 @@ def repeat(p, ctx):
     if ok:
         oracles.c14(M, ctx)
         ctx.cover("second-run")
+
+
+def backward(p, ctx):
+    """The relation in the logs of a backward run (reversed or not), product with a component that has two parents."""
+    import warnings
+    from model.family import build, sim_kwargs
+    from model.observe import Observer, concrete_sig
+    from model.stubs import numpy_stub
+
+    M = build(p["spec"], p, ctx.symbolic)
+    with numpy_stub(ctx.symbolic), warnings.catch_warnings():
+        warnings.simplefilter("ignore")
+        ok, r = ctx.call(M.project.backward_simulate, reverse_log_information=bool(p["rev"]), **sim_kwargs(M))
+    M.obs = Observer(M)  # no live snapshots: the oracle judges the logs
+    if ok:
+        oracles.c14(M, ctx)
+        ctx.cover("backward-logs")
+    ctx.sig = (concrete_sig(M), p["rev"])
 
 
 def unit(p, ctx):
@@ -115,6 +133,18 @@ def obligations(tier, seed):
     for ob in list(obs):
         if "/fs" in ob["name"] and ("wps=2" in ob["name"] or thorough):
             obs.append(dict(ob, harness="repeat", name="repeat/" + ob["name"]))
+    # a worker with a quality skill (the component's error counter rises) and a component with two parents, backward
+    for rev in (0, 1):
+        spec = {"tasks": [{"w": "$w0", "comp": 0}, {"w": "$w1", "comp": 1}, {"w": "$w2", "comp": 2}], "edges": [[2, 0, 0], [2, 1, 0]],
+                "comps": [{"size": 1, "children": [2]}, {"size": 1, "children": [2]}, {"size": 1}],
+                "teams": [{"targets": [0, 1, 2], "workers": [{"skills": {"0": 1, "1": 1, "2": 1}, "qskills": {"0": 2}}, {"skills": {"0": 1, "1": 1, "2": 1}}]}],
+                "run": {"max_time": 12}}
+        obs.append({"name": "backward/two-parents/rev=%d" % rev, "harness": "backward", "cube": {"spec": spec, "rev": rev},
+                    "params": [["w0", 1, 3], ["w1", 1, 3], ["w2", 1, 3]], "timeout": 600 if thorough else 120, "engine": "zsym"})
+    spec = {"tasks": [{"w": "$w0", "comp": 0}, {"w": "$w1", "comp": 0}], "edges": [[0, 1, 0]], "comps": [{"size": 1}],
+            "teams": [{"targets": [0, 1], "workers": [{"skills": {"0": 1, "1": 1}, "qskills": {"0": 2, "1": 1}}]}], "run": {"max_time": 12}}
+    obs.append({"name": "quality/one-component", "harness": "sim", "cube": {"spec": spec}, "params": [["w0", 1, 3], ["w1", 1, 3]],
+                "timeout": 600 if thorough else 120, "engine": "zsym"})
     for n in range(0, 4 if thorough else 3 + 1):
         for rounds in ((1, 2, 3) if n <= 2 or thorough else (1, 2)):
             params = [["r%d_%d" % (r, i), 0, 3] for r in range(rounds) for i in range(n)]
